@@ -449,5 +449,5 @@ func genTyped(t *rapid.T) Case {
 }
 
 func TestC06Gen(t *testing.T) {
-	evid.Prop(t, "gen", evid.R.N(6000, 60000), genTyped, oracle)
+	evid.Prop(t, "gen", evid.R.N(5000, 40000), genTyped, oracle)
 }
